@@ -88,6 +88,34 @@ func genC16(c *Ctx) {
 			})
 			c.AddCase(75, "extractWhitespaceTag", out, B(m))
 		}
+		// tags as other implementations emit them: the base followed by any sequence of 8-character groups, known
+		// (v1, v2, v3) and unknown ones, possibly cut short or followed by more text
+		{
+			groups := [][]byte{otr3.VerifConvertToWhitespace("1"), otr3.VerifConvertToWhitespace("2"), otr3.VerifConvertToWhitespace("3"),
+				otr3.VerifConvertToWhitespace("4"), []byte(" \t \t  \t \t \t"), []byte("\t\t\t\t\t\t\t\t")}
+			// (the v1 group of libotr is " \t \t  \t "; "1" rendered by this library differs, both are 'unknown' here)
+			groups[0] = []byte(" \t \t  \t ")
+			txt := c.genText()
+			in := append(append([]byte{}, txt...), hdr...)
+			var names []string
+			for k := c.R.Intn(5); k > 0; k-- {
+				g := c.R.Intn(len(groups))
+				in = append(in, groups[g][:8]...)
+				names = append(names, fmt.Sprint(g))
+			}
+			switch c.R.Intn(4) {
+			case 0:
+				in = append(in, c.genText()...)
+			case 1:
+				in = append(in, " \t"[c.R.Intn(2)])
+			}
+			c.Count("foreign-tag-groups:" + fmt.Sprint(len(names)))
+			out := guard(func() Val {
+				p, v := otr3.VerifExtractWhitespaceTag(in)
+				return L(B(p), N(v))
+			})
+			c.AddCase(75, "extractWhitespaceTag", out, B(in))
+		}
 		// pass-through oracle: text ++ tag comes back as text
 		txt := c.genText()
 		pol := c.R.Intn(64) * 2
